@@ -307,6 +307,7 @@ type opPlan struct {
 	patches    []workload.PatchDesc
 	delta      refmodel.DeltaClass
 	invalidBig bool
+	noDelta    bool
 	from       int64
 	until      int64
 	kind       string
@@ -375,6 +376,8 @@ func (w *aWorld) build(p *opPlan) ([]byte, *refmodel.Op) {
 		}
 
 		switch {
+		case p.noDelta:
+			raw.NoDelta = true
 		case p.delta == refmodel.DeltaMismatch:
 			other, _ := workload.ToPatches([]workload.PatchDesc{{Kind: workload.AddKey, IDs: []string{"k4"}, Mark: w.nextMark()}})
 			raw.RequestDelta = &model.DeltaModel{UpdateCommitment: nu, Patches: other}
@@ -617,7 +620,12 @@ func tail6(s string) string {
 
 func (w *aWorld) deltaClass(party string) (refmodel.DeltaClass, bool, bool) {
 	T := w.k.T
-	if party != "baddelta" && T.Draw(12, "delta.rare") != 0 {
+	rare := 12
+	if party == "create" {
+		rare = 5
+	}
+
+	if party != "baddelta" && T.Draw(rare, "delta.rare") != 0 {
 		return refmodel.DeltaOK, false, false
 	}
 
@@ -638,8 +646,15 @@ func (w *aWorld) anchorCreate(dup bool) {
 	w.advance()
 
 	if !dup {
-		cls, failing, big := w.deltaClass("honest")
+		cls, failing, big := w.deltaClass("create")
 		p := &opPlan{typ: operation.TypeCreate, nextUpd: w.newKey("upd"), nextRec: w.newKey("rec"), patches: w.genPatches(failing, true), delta: cls, invalidBig: big, kind: "create"}
+
+		// a create anchored without any delta: still the DID's create (empty document, no update commitment)
+		if cls == refmodel.DeltaMismatch && T.Draw(2, "create.nodelta") == 0 {
+			p.noDelta = true
+			p.kind = "create-without-delta"
+			w.k.Count("probe:create-without-delta")
+		}
 		req, m := w.build(p)
 
 		parsed, err := w.version().Parser.ParseCreateOperation(req, true)
